@@ -5,9 +5,9 @@ VARIABLES q, l
 Trace == ndJsonDeserialize("trace.ndjson")
 Ev == Trace[l]
 TStep == \/ Ev.ev = "Reset" /\ q' = <<>>
-         \/ Ev.ev = "Push" /\ q' = Append(q, Ev.a[1]) /\ Ev.o.len = Len(q') /\ Ev.o.empty = FALSE
+         \/ Ev.ev = "Push" /\ q' = Append(q, Ev.a[1]) /\ ("o" \in DOMAIN Ev => Ev.o.len = Len(q') /\ Ev.o.empty = FALSE)
          \/ Ev.ev = "Pop" /\ (IF q = <<>> THEN Ev.r = <<0>> /\ q' = q ELSE Ev.r = <<Head(q)>> /\ q' = Tail(q))
-                          /\ Ev.o.len = Len(q') /\ Ev.o.empty = (q' = <<>>)
+                          /\ ("o" \in DOMAIN Ev => Ev.o.len = Len(q') /\ Ev.o.empty = (q' = <<>>))
          \/ Ev.ev = "Drain" /\ Ev.d = q /\ q' = q
 TNext == l <= Len(Trace) /\ l' = l + 1 /\ TStep
 TSpec == l = 1 /\ q = <<>> /\ [][TNext]_<<q, l>>
